@@ -213,11 +213,24 @@ def pc_values(path, P, extra=()):
     return discharge.model_values(m, P.terms)
 
 
+def target_exists(contract):
+    try:
+        loader.load().function_source(contract.target)
+        return True
+    except KeyError:
+        return False
+
+
 def run_case(contract_id, case, props, tier="quick", seed=0, diff=True):
     """explore one structural case of one contract. Returns a picklable report."""
     t_start = time.perf_counter()
     contract = REGISTRY[contract_id]
     L = loader.load(loop_contracts=getattr(contract, "loop_contracts", None))
+    if getattr(contract, "optional_target", False) and not target_exists(contract):
+        # a lemma about a private helper that no longer exists under that name: not applicable (the public-level
+        # contracts, which execute whatever replaced it, carry the property)
+        return {"contract": contract_id, "case": case_id(case), "target": contract.target, "obligations": [], "paths": 0, "unsupported": [], "faults": [], "diff_points": 0,
+                "sentinels": [], "assumptions": [], "solver_time_s": 0.0, "wall_s": 0.0, "executed": [], "helper_missing": contract.target}
     timeout = QUICK_TIMEOUT if tier == "quick" else THOROUGH_TIMEOUT
     cross = tier == "thorough"
     eng = sym.Engine()
@@ -271,7 +284,7 @@ def run_case(contract_id, case, props, tier="quick", seed=0, diff=True):
                     continue
                 r = discharge.check(cl.hyps + [z3.Not(cl.goal)], 30)
                 report["solver_time_s"] += r["time_s"]
-                report["obligations"].append({"id": oid0(cl.name, prop), "prop": prop, "kind": cl.kind, "path": 0, "bounded": (cl.bounded if cl.bounded is not None else (contract.bounded if contract.bounded is not None else "native grid")), "status": "discharged" if r["answer"] == "unsat" else ("unknown" if (r["answer"] != "sat" or getattr(cl, "undecided_if_false", False)) else "refuted"), "clause": cl.name, "params": {}, "schedule": {}, "note": cl.note, "raised": None, "regions": {}, "backend": r["backend"]})
+                report["obligations"].append({"id": oid0(cl.name, prop), "prop": prop, "kind": cl.kind, "path": 0, "bounded": (cl.bounded if cl.bounded is not None else (contract.bounded if contract.bounded is not None else "native grid")), "status": "discharged" if r["answer"] == "unsat" else ("not_lifted" if getattr(cl, "soft", False) else ("unknown" if r["answer"] != "sat" else "refuted")), "clause": cl.name, "params": {}, "schedule": {}, "note": cl.note, "raised": None, "regions": {}, "backend": r["backend"]})
         report["diff_points"] = 1
         return report
     executed = set()
